@@ -27,51 +27,27 @@ def run(ctx):
                             "width named by the TOIMaxLength variant", "E4 per arm")
     f = prog.fn(TAI + "::to_max_length")
     ctx.analysed(f.path)
-    r = ranges.analyse(prog, f)
-    flow = Flow(f.body)
-    # per arm: the exit state's return interval on the path through that arm -> analyse arm by arm using the edge facts
-    arms = {}
-    for blk in f.body.blocks:
-        t = blk.term
-        if t.k != "switch":
-            continue
-        for k in range(len(t.targets) + 1):
-            n = ("e", blk.i, k)
-            vs = [a[2] for (a, tr) in flow.edge_facts(n) if a[0] == "variant" and tr]
-            if len(vs) == 1:
-                tgt = flow.succ(n)[0][1]
-                arms[vs[0]] = tgt
-    for variant, tgt in sorted(arms.items()):
+    # per variant: the function analysed under the assumption that the width parameter holds that variant; the interval of the returned value
+    # at the exits (however the arms are written: `toi & MASK` per arm, or a mask selected by a helper and applied once)
+    wparam = [f.body.names.get(l) for l in range(1, f.body.argc + 1) if f.body.locals[l]["ty"].endswith("TOIMaxLength")]
+    adt_ = [a_ for p_, a_ in prog.adts.items() if p_.endswith("TOIMaxLength")]
+    if not wparam or not adt_:
+        raise model.AnchorMissing("to_max_length: no TOIMaxLength parameter")
+    for vj in adt_[0]["variants"]:
+        variant = vj["name"]
         m = re.search(r"(\d+)$", variant)
         if not m:
             continue
         w = int(m.group(1))
-        # follow the arm (straight-line) evaluating with the entry state of its first block
-        st = r.entry.get(tgt)
         key = "to_max_length[%s]" % variant
-        if st is None:
-            r1.violation(key, "arm not reached by the analysis", loc(f.sp))
-            continue
-        st = st.copy()
-        cur = tgt
-        val = None
-        steps = 0
-        while steps < 10:
-            steps += 1
-            b2 = f.body.blocks[cur]
-            for s in b2.stmts:
-                if s.k == "assign":
-                    r.assign(st, s.lhs, s.rv, cur, s.sp)
-            if "_0" in st.iv:
-                val = st.iv["_0"]
-            if b2.term.k == "goto" and len(f.body.preds()[b2.term.target]) == 1:
-                cur = b2.term.target
-                continue
-            break
-        if val is None:
+        r = ranges.analyse(prog, f, params={wparam[0]: variant})
+        vals = [st_.iv.get("_0") for (_bb, st_) in r.exit_states]
+        if not vals or any(v_ is None for v_ in vals):
             r1.violation(key, "no return value recognised in the arm", loc(f.sp))
-        elif val[0] >= 0 and val[1] <= (1 << w) - 1:
-            r1.ok(key, "result in [%d, 2^%d-1]" % (val[0], int(val[1]).bit_length()), loc(f.body.blocks[tgt].term.sp) if f.body.blocks[tgt].term.sp else loc(f.sp))
+            continue
+        val = (min(v_[0] for v_ in vals), max(v_[1] for v_ in vals))
+        if val[0] >= 0 and val[1] <= (1 << w) - 1:
+            r1.ok(key, "result in [%d, 2^%d-1]" % (val[0], int(val[1]).bit_length()), loc(f.sp))
         else:
             r1.violation(key, "the %s arm can return values up to 2^%d-1 (range [%s, %s]); TOIs wider than %d bits do not fit the "
                               "configured width nor the 112-bit LCT field" % (variant, int(val[1]).bit_length(), val[0], val[1], w), loc(f.sp))
@@ -192,7 +168,8 @@ def run(ctx):
         m = method_name(s)
         caller = s.func.root().path
         key = "%s %s toi_reserved" % (caller, m)
-        if m in ("contains", "insert", "len", "is_empty", "fmt") or (m == "remove" and caller == TAI + "::release"):
+        # remove: in ToiAllocatorInternal::release, or directly in its only caller ToiAllocator::release (itself reachable from Drop for Toi only)
+        if m in ("contains", "insert", "len", "is_empty", "fmt") or (m == "remove" and caller in (TAI + "::release", "sender::toiallocator::ToiAllocator::release")):
             r3.ok(key, "", s.loc)
         else:
             r3.violation(key, "reservation set modified by %s outside release()" % m, s.loc)
